@@ -46,7 +46,7 @@ def bfs(ctx, evaluate, sources, depth_tiers, extra=None, args=(), on_result=None
     for d, tier in enumerate(depth_tiers):
         cands = []
         for case, kind in frontier:
-            for op_ in O.alphabet(tier):
+            for op_ in O.alphabet_spec(tier):
                 if O.applicable(op_, kind):
                     c = dict(case)
                     c["ops"] = case["ops"] + [op_.name]
